@@ -107,6 +107,8 @@ class IntEnc:
         if op == 'or': return z3.Or(*a)
         if op == 'not': return z3.Not(a[0])
         if op == 'iff': return a[0] == a[1]
+        if op == 'forall': return z3.ForAll([z3.Int(x) for x in n.val], a[0])
+        if op == 'exists': return z3.Exists([z3.Int(x) for x in n.val], a[0])
         raise KeyError(op)
 
     def axioms(self):
